@@ -99,6 +99,9 @@ func dumpIncomplete(d string) string {
 func judgeParse(src []rune, resp *Resp) (key, what string) {
 	switch resp.Kind {
 	case "ok":
+		if resp.LexFailed {
+			return "accepted-untokenisable", "parser accepted the text (tree: " + clip(resp.Dump, 120) + ") although the lexer alone fails on it (" + resp.LexMsg + "): part of the text was never looked at"
+		}
 		if bad := dumpIncomplete(resp.Dump); bad != "" {
 			return "incomplete-tree", "parser accepted the text but returned an incomplete tree (" + bad + "): " + clip(resp.Dump, 300)
 		}
@@ -122,6 +125,9 @@ func judgeParse(src []rune, resp *Resp) (key, what string) {
 		}
 		if e.Cursor < 0 || e.Cursor > len(src) {
 			return "bad-cursor", fmt.Sprintf("syntax error position %d outside 0..%d", e.Cursor, len(src))
+		}
+		if resp.Dump == "PARTIAL" {
+			return "tree-and-error", "Parse returned a syntax error together with a (partial) tree instead of either one"
 		}
 		if e.DisplayPanic != "" {
 			return "display-panic", "rendering the syntax error panicked: " + clip(e.DisplayPanic, 200)
